@@ -263,7 +263,7 @@ pub enum Stop {
     Inconclusive(String),
 }
 
-const MODEL_STEP_LIMIT: u64 = 3000;
+const MODEL_STEP_LIMIT: u64 = 6000;
 
 pub fn truthy(v: &str) -> bool {
     let l = v.to_lowercase();
@@ -917,6 +917,9 @@ const RVARS: [&str; 3] = ["r0", "r1", "r2"];
 const VALUES: [&str; 14] = ["a", "b7", "hello", "x y", "", "0", "true", "two words", "false", "no", "NO", "yes", "1", "False"];
 
 struct G<'r> {
+    /// "big" mode (one program in twenty): ONE dimension goes beyond the usual small pools
+    /// (1 long values, 2 nesting depth, 3 branch count, 4 array length, 5 argument count, 6 loop iterations)
+    big: u8,
     rng: &'r mut Rng,
     opts: GenOpts,
     n_cnd: usize,
@@ -942,6 +945,10 @@ struct Ctx {
 
 impl<'r> G<'r> {
     fn value(&mut self) -> String {
+        if self.big == 1 && self.rng.chance(1, 6) {
+            // longer than 64 bytes
+            return format!("long-{}-{}", "abcdefghij".repeat(6 + self.rng.usize(3)), self.rng.below(10));
+        }
         self.rng.pick(&VALUES).to_string()
     }
     fn readable(&mut self, ctx: &Ctx, may_concat: bool) -> String {
@@ -1045,7 +1052,7 @@ impl<'r> G<'r> {
     fn stmt(&mut self, ctx: &Ctx) -> Stmt {
         self.budget -= 1;
         let mut w = self.w;
-        if ctx.depth >= self.opts.max_depth {
+        if ctx.depth >= if self.big == 2 { 8 } else { self.opts.max_depth } {
             w[3] = 0;
             w[4] = 0;
             w[5] = 0;
@@ -1074,7 +1081,7 @@ impl<'r> G<'r> {
                 Stmt::Fail(x, format!("oops{}", self.rng.below(10)))
             }
             3 => {
-                let nb = 1 + if self.rng.chance(1, 2) { self.rng.usize(3) } else { 0 };
+                let nb = 1 + if self.rng.chance(1, 2) { self.rng.usize(if self.big == 3 { 9 } else { 3 }) } else { 0 };
                 let mut branches = vec![];
                 let inner = Ctx { depth: ctx.depth + 1, ..ctx.clone() };
                 for _ in 0..nb {
@@ -1096,7 +1103,7 @@ impl<'r> G<'r> {
                 let arr = if self.n_arrays > 0 && !ctx.scoped && self.rng.chance(1, 2) {
                     ArrRef::Global(self.rng.usize(self.n_arrays))
                 } else {
-                    let n = self.rng.usize(4);
+                    let n = if self.big == 4 && self.rng.chance(1, 3) { 17 + self.rng.usize(8) } else { self.rng.usize(4) };
                     ArrRef::Inline((0..n).map(|_| self.rng.pick(&["p", "q", "r", "s s", "0"]).to_string()).collect())
                 };
                 let mut inner = Ctx { depth: ctx.depth + 1, in_for: true, ..ctx.clone() };
@@ -1107,7 +1114,7 @@ impl<'r> G<'r> {
             }
             6 => {
                 let f = self.rng.usize(self.n_fns);
-                let n = self.rng.usize(3);
+                let n = if self.big == 5 && self.rng.chance(1, 3) { 10 + self.rng.usize(3) } else { self.rng.usize(3) };
                 let out = if self.rng.chance(2, 3) { Some(self.rng.pick(&RVARS).to_string()) } else { None };
                 let show = out.is_some() && self.rng.chance(3, 4);
                 Stmt::Call { out, f: format!("f{}", f), args: (0..n).map(|_| self.tpl(ctx)).collect(), show }
@@ -1133,17 +1140,19 @@ pub fn generate_program(rng: &mut Rng, opts: &GenOpts) -> Program {
         1 => 16,
         _ => opts.max_stmts as i64,
     };
+    let big: u8 = if rng.chance(1, 20) { 1 + rng.below(6) as u8 } else { 0 };
     let arrays: Vec<Vec<String>> = (0..n_arrays)
         .map(|_| {
-            let n = rng.usize(4);
+            let n = if big == 4 && rng.chance(1, 2) { 17 + rng.usize(24) } else { rng.usize(4) };
             (0..n).map(|_| rng.pick(&["a", "b", "c", "d d", ""]).to_string()).filter(|s| !s.is_empty()).collect()
         })
         .collect();
-    let mut g = G { rng, opts: opts.clone(), n_cnd: 0, n_for: 0, budget: size, n_fns, n_arrays, w };
+    let mut g = G { big, rng, opts: opts.clone(), n_cnd: 0, n_for: 0, budget: size, n_fns, n_arrays, w };
     let mut fns = vec![];
     for k in 0..n_fns {
         let scoped = g.rng.chance(1, 3);
-        let ctx = Ctx { depth: 1, in_fn: Some(k), scoped, n_params: g.rng.usize(3), loop_vars: vec![], in_for: false, calls_ok: false };
+        let n_params = if g.big == 5 && g.rng.chance(1, 2) { 10 + g.rng.usize(3) } else { g.rng.usize(3) };
+        let ctx = Ctx { depth: 1, in_fn: Some(k), scoped, n_params, loop_vars: vec![], in_for: false, calls_ok: false };
         g.budget = (size / 2).max(3);
         let mut body = g.block(&ctx, 5);
         if g.rng.chance(1, 2) {
@@ -1172,7 +1181,7 @@ pub fn generate_program(rng: &mut Rng, opts: &GenOpts) -> Program {
     let n_cnd = g.n_cnd;
     let cnd: Vec<Vec<bool>> = (0..n_cnd)
         .map(|_| {
-            let n = g.rng.usize(4);
+            let n = if g.big == 6 && g.rng.chance(1, 4) { 8 + g.rng.usize(12) } else { g.rng.usize(4) };
             (0..n).map(|_| g.rng.chance(2, 3)).collect()
         })
         .collect();
